@@ -14,7 +14,7 @@ TRUSTED_EXTRA = ['coq/Model/Lexer.v, PyExpr.v, Parser.v: hand-written, tied to a
 CLAIM = dict(
     text='C11_lex_transparent: whatever the spelling of a constant definition, the text handed to eval is the expression tokens '
          'joined by one blank; C11_value: resolve_constants_lr succeeds exactly when every definition evaluates over the earlier '
-         'names (registers visible) and then binds each name to that value, in order; C11_subst: replacing constant names by their values inside integer expressions (immediates, li, data, %hi/%lo/%position arguments) leaves the result of the whole 16-pass model unchanged, both modes (simulation through every pass); C11_char: the character literal of every '
+         'names (registers visible) and then binds each name to that value, in order; C11_number_literals: for the expression model the decimal / hexadecimal spelling of every value below 2^64 IS that number, as expression text and as an immediate operand (induction on the digit loops); C11_subst: replacing constant names by their values inside integer expressions (immediates, li, data, %hi/%lo/%position arguments) leaves the result of the whole 16-pass model unchanged, both modes (simulation through every pass); C11_char: the character literal of every '
          'printable ASCII character evaluates to its code point on the model. Tie: PyExpr vs CPython (tree vs ast.parse, value vs '
          'the real Arithmetic.eval), lexer / parser correspondence. Falsifier: random expression trees with independently computed '
          'values, all 95 character literals, constants substituted at every site, both modes.',
